@@ -23,6 +23,8 @@ def random_cases(rnd, n):
             alpha = [c for c in range(32, 127) if chr(c) != DELIMS[dname]]
             if rnd.random() < 0.5:
                 alpha = [c for c in alpha if c not in (32, 59)]          # half of the strings avoid blanks and ';'
+            if rnd.random() < 0.15:
+                alpha = alpha + [9, 9, 9, 1, 7, 15, 127, 160, 255]          # a tab (and other one-byte characters) is a character like any other
             chars = [rnd.choice(alpha) for _ in range(ln)]
             s = fcc(chars, dname)
             out.append(framed(s, "fcc-random", comment=rnd.choice([None, None, "text", "a ; b", 'say "hi" /now/', "it's |ok|"])))
